@@ -208,12 +208,15 @@ CreateLinkIn(st, dir, name, tgt) ==
 (***************************************************************************)
 (* Namespace calls.                                                        *)
 (***************************************************************************)
-Mkdir(st, c) ==
-    LET r == Res(st, c.p, FALSE) IN
+\* mkdir(2) never follows a link in final position; followFinal exists for the deviation catalogue
+MkdirF(st, c, followFinal, bud) ==
+    LET r == Resolve(st, c.p, followFinal, bud) IN
     IF r.err # "ok" THEN Fail(r.err, st)
     ELSE IF r.id # 0 THEN Fail("EEXIST", st)
     ELSE IF ~MayWX(st, Last(r.par)) THEN Fail("EACCES", st)
     ELSE Ok(CreateDirIn(st, Last(r.par), r.name, c.perm))
+
+Mkdir(st, c) == MkdirF(st, c, FALSE, KernelLinkBudget)
 
 \* os.MkdirAll: Stat; parents first; Mkdir; tolerate "already a directory".
 RECURSIVE MkdirAllR(_, _, _, _)
@@ -241,9 +244,9 @@ Handle(id, c, isdir) ==
      open |-> TRUE, dir |-> isdir, dstart |-> FALSE, dleft |-> {}, name |-> c.p]
 
 \* open(2) as issued by os.OpenFile; returns [res, st, id] with id the opened inode (0 on failure)
-OpenCore(st, c) ==
+OpenCoreF(st, c, followExcl, bud) ==
     LET excl == HasFlag(c, "CREATE") /\ HasFlag(c, "EXCL")
-        r == Res(st, c.p, ~excl)
+        r == Resolve(st, c.p, ~excl \/ followExcl, bud)
         F(e) == [res |-> [R0 EXCEPT !.err = e], st |-> st, id |-> 0] IN
     IF r.err # "ok" THEN F(r.err)
     ELSE IF r.id = 0 THEN
@@ -261,6 +264,8 @@ OpenCore(st, c) ==
     ELSE [res |-> R0,
           st |-> IF HasFlag(c, "TRUNC") THEN [st EXCEPT !.ino[r.id].data = <<>>] ELSE st,
           id |-> r.id]
+
+OpenCore(st, c) == OpenCoreF(st, c, FALSE, KernelLinkBudget)
 
 OpenClose(st, c) == LET o == OpenCore(st, c) IN [res |-> o.res, st |-> o.st]
 
